@@ -93,7 +93,12 @@ impl<'a> Nevra<'a> {
 
     /// Parse the name, epoch, version, release and arch values and return them as a 5-element tuple
     pub fn parse_values(nevra: &'a str) -> (&'a str, &'a str, &'a str, &'a str, &'a str) {
-        let (name, evra) = nevra.split_once('-').unwrap_or((nevra, ""));
+        // the name may itself contain dashes: version and release are the last two
+        // dash-separated fields, so split the name off at the second dash from the right
+        let (name, evra) = match nevra.rmatch_indices('-').nth(1) {
+            Some((idx, _)) => (&nevra[..idx], &nevra[idx + 1..]),
+            None => nevra.split_once('-').unwrap_or((nevra, "")),
+        };
         let (epoch, vra) = evra.split_once(':').unwrap_or(("", evra));
         let (version, ra) = vra.split_once('-').unwrap_or((vra, ""));
         let (release, arch) = ra.rsplit_once('.').unwrap_or((ra, ""));
